@@ -93,4 +93,101 @@ theorem merge_keeps_leftovers (base blob : SData) (k : Bytes) (h : lookup blob.k
     lookup (base.merge blob).kv k = lookup base.kv k := by
   simp [SData.merge, lookup_foldr_put, h]
 
+/-! ### association lists without repeated keys -/
+
+/-- no key occurs twice -/
+def NoDupKeys : List (Bytes × α) → Prop
+  | [] => True
+  | e :: rest => lookup rest e.1 = none ∧ NoDupKeys rest
+
+theorem erase_of_lookup_none {s : List (Bytes × α)} {k : Bytes} (h : lookup s k = none) : erase s k = s := by
+  induction s with
+  | nil => rfl
+  | cons e rest ih =>
+    obtain ⟨k0, v0⟩ := e
+    rw [erase_cons]
+    by_cases h0 : k0 = k
+    · simp [lookup, h0] at h
+    · simp only [h0, if_false]
+      simp [lookup, h0] at h
+      rw [ih h]
+
+theorem lookup_erase_none {s : List (Bytes × α)} {k k' : Bytes} (h : lookup s k' = none) :
+    lookup (erase s k) k' = none := by
+  by_cases hk : k' = k
+  · subst hk; exact lookup_erase_self s k'
+  · rw [lookup_erase_ne s k k' hk]; exact h
+
+theorem nodup_erase {s : List (Bytes × α)} (h : NoDupKeys s) (k : Bytes) : NoDupKeys (erase s k) := by
+  induction s with
+  | nil => exact h
+  | cons e rest ih =>
+    rw [erase_cons]
+    split
+    · exact ih h.2
+    · exact ⟨lookup_erase_none h.1, ih h.2⟩
+
+theorem nodup_put {s : List (Bytes × α)} (h : NoDupKeys s) (k : Bytes) (v : α) : NoDupKeys (put s k v) :=
+  ⟨lookup_erase_self s k, nodup_erase h k⟩
+
+theorem lookup_of_mem_nodup {s : List (Bytes × α)} (h : NoDupKeys s) {k : Bytes} {v : α} (hm : (k, v) ∈ s) :
+    lookup s k = some v := by
+  induction s with
+  | nil => simp at hm
+  | cons e rest ih =>
+    obtain ⟨k0, v0⟩ := e
+    simp only [List.mem_cons] at hm
+    rcases hm with hm | hm
+    · cases hm; simp [lookup]
+    · have hr := ih h.2 hm
+      by_cases h0 : k0 = k
+      · subst h0
+        have := h.1
+        simp only at this
+        rw [this] at hr
+        cases hr
+      · simp [lookup, h0, hr]
+
+/-- decoding a stored map into an EMPTY map reproduces it exactly -/
+theorem foldr_put_nil_of_nodup {l : KV} (h : NoDupKeys l) :
+    l.foldr (fun e acc => put acc e.1 e.2) [] = l := by
+  induction l with
+  | nil => rfl
+  | cons e rest ih =>
+    simp only [List.foldr_cons]
+    rw [ih h.2]
+    simp only [put]
+    rw [erase_of_lookup_none h.1]
+
+theorem merge_empty_of_nodup {blob : SData} (h : NoDupKeys blob.kv) : SData.empty.merge blob = blob := by
+  cases blob with
+  | mk kv abs =>
+    simp only [SData.merge, SData.empty]
+    rw [foldr_put_nil_of_nodup h]
+    cases abs <;> rfl
+
+/-! ### the harness' key generator -/
+
+theorem natToDec_inj {n m : Nat} (h : natToDec n = natToDec m) : n = m := by
+  unfold natToDec at h
+  have hn : (toString n).toList = Nat.toDigits 10 n := Nat.toList_repr
+  have hm : (toString m).toList = Nat.toDigits 10 m := Nat.toList_repr
+  rw [hn, hm] at h
+  have h2 : Nat.toDigits 10 n = Nat.toDigits 10 m :=
+    (List.map_inj_right (fun a b hab => Char.toNat_inj.mp hab)).mp h
+  have := Nat.ofDigitChars_toDigits (b := 10) (n := n) (by omega) (by omega)
+  rw [h2, Nat.ofDigitChars_toDigits (by omega) (by omega)] at this
+  exact this.symm
+
+theorem idGen_inj {i j : Nat} (h : idGen i = idGen j) : i = j := by
+  unfold idGen at h
+  have := natToDec_inj (List.append_cancel_left h)
+  omega
+
+theorem idGen_ne_nil (i : Nat) : idGen i ≠ [] := by
+  unfold idGen
+  intro h
+  have := congrArg List.length h
+  simp [b] at this
+
 end C15
